@@ -131,17 +131,27 @@ PROPS = {
                    "two threads generating key ids concurrently (generate_key_id reads the length under one lock and inserts under another)"],
         assumptions=["db_ids_small: identifiers in use are below usize::MAX", "invalidate_oplog is replaced by a shim that touches no identifier map (R8)"],
     ),
+    "C17": dict(
+        units=["sessions", "consensus"],
+        undecided=["that each transport calls Client::left exactly once when a session ends (tcp_ops / ws_ops / http_ops disconnect paths) - glue",
+                   "two sessions interleaved at lock granularity (sequential semantics only)",
+                   "the $connections key on an arbiter-strategy database while that key is in conflict resolution"],
+        assumptions=["set_connection_counter is replaced by a shim in unit sessions (counter untouched); its real body is verified in unit consensus (C17.mirror)",
+                     "is_valid_token / is_valid_user_token are external in unit sessions (their contracts are proved in unit store)",
+                     "sessions are modelled abstractly in the accounting lemmas: a map from session ids to the selected database"],
+    ),
     "C19": dict(
         units=["consensus", "store"],
         undecided=["two concurrent clients (lock elision)", "'applied in the primary's order on every node' (replication)"],
         assumptions=["Change::new stamps the resolving change with the wall clock (any u64)"],
     ),
     "C10": dict(
-        units=["store", "consensus", "security", "ids", "oplog", "pending", "parser"],
+        units=["store", "consensus", "security", "ids", "oplog", "pending", "parser", "sessions"],
         reachable={"store": STORE_FNS, "security": SECURITY_FNS, "pending": ["ReplicationMessage::new", "ReplicationMessage::ack", "ReplicationMessage::replicated", "ReplicationMessage::is_full_acknowledged",
                    "ReplicationMessage::count_replication", "ReplicationMessage::count_acknowledged", "ReplicationMessage::get_copy", "Databases::register_pending_opp",
                    "Databases::acknowledge_pending_opp", "Databases::get_pending_opp_copy"],
-                   "parser": PARSER_FNS, "oplog": ["read_operations_since_from_file", "Oplog::last_op_time", "Oplog::write_op_log", "ReplicateOpp::to_u8", "From<u8>@ReplicateOpp::from", "OpLogRecord::new"], "ids": ["generate_key_id", "create_temp_db", "Databases::add_database", "Databases::next_db_id"], "consensus": ["Database::try_resolve_conflict_response", "apply_change_to_db_try_fix_conflicts",
+                   "parser": PARSER_FNS, "sessions": ["Database::inc_connections", "Database::dec_connections", "Database::connections_count", "release_previous_db",
+                   "Client::left", "Client::selected_db_name", "arm_use_db"], "oplog": ["read_operations_since_from_file", "Oplog::last_op_time", "Oplog::write_op_log", "ReplicateOpp::to_u8", "From<u8>@ReplicateOpp::from", "OpLogRecord::new"], "ids": ["generate_key_id", "create_temp_db", "Databases::add_database", "Databases::next_db_id"], "consensus": ["Database::try_resolve_conflict_response", "apply_change_to_db_try_fix_conflicts",
                    "set_key_value", "Database::resolve_conflit", "Database::has_arbiter_connected", "Change::new"]},
         undecided=["transport loops, dispatcher unwraps (e.g. try_send(..).unwrap() in the rp arm), lock poisoning propagation",
                    "Request::parse's table lookup (lazy_static HashMap of fn pointers) and the two snapshot parsers (iterator pipelines) are not verified",
